@@ -477,7 +477,7 @@ def periodics(factories):
     return
 
 
-def purge(node: dawgie.pl.dag.Node, target: str):
+def _withdraw(node: dawgie.pl.dag.Node, target: str, visited: []):
     if target in node.get('do', []):
         node.get('do').remove(target)
     if target in node.get('doing', []):
@@ -485,8 +485,28 @@ def purge(node: dawgie.pl.dag.Node, target: str):
     if target in node.get('todo', []):
         node.get('todo').remove(target)
 
+    visited.append(node)
     for child in node:
-        purge(child, target)
+        _withdraw(child, target, visited)
+    return
+
+
+def purge(node: dawgie.pl.dag.Node, target: str):
+    # A job that is executing the target leaves the queue when its reply
+    # arrives (see complete()). Any other job left with nothing to do must not
+    # linger in the queue: it would block downstream analyses and the
+    # queue-empty waiters forever.
+    executing = [job for job in que if target in job.get('doing', [])]
+    visited = []
+    _withdraw(node, target, visited)
+    for job in visited:
+        if (
+            not (job.get('todo') or job.get('doing'))
+            and not any(job is busy for busy in executing)
+            and any(job is queued for queued in que)
+        ):
+            que.remove(job)
+            job.set('status', State.waiting)
     return
 
 
